@@ -57,17 +57,58 @@ def load():
         return {}
 
 
+def canonicalise_fields(units, ref):
+    """renamed fields of named records get their reference names back: a field that is new to a record, has the type of
+    a field that is missing from it and sits at the same position (or is the only candidate of that type)"""
+    rrecs = ref.get("//records") or {}
+    out = []
+    for u in units:
+        ren = {}
+        for r in u.records:
+            rf = rrecs.get(r.get("name") or "")
+            if not rf:
+                continue
+            cur = [(f["name"], f.get("t")) for f in r["fields"]]
+            curnames = {n for n, t in cur}
+            refnames = {n for n, t in rf}
+            missing = [(i, n, t) for i, (n, t) in enumerate(rf) if n and n not in curnames]
+            new = [(i, n, t) for i, (n, t) in enumerate(cur) if n and n not in refnames]
+            for mi, mn, mt in missing:
+                cands = [(i, n) for i, n, t in new if t == mt]
+                pick = [n for i, n in cands if i == mi] or ([cands[0][1]] if len(cands) == 1 else [])
+                if len(pick) == 1:
+                    ren[(r["name"], pick[0])] = mn
+                    new = [x for x in new if x[1] != pick[0]]
+            for f in r["fields"]:
+                if (r["name"], f["name"]) in ren:
+                    f["name"] = ren[(r["name"], f["name"])]
+        if not ren:
+            continue
+        for f in u.functions:
+            for n in f.nodes.values():
+                if n["k"] == "member" and (n.get("record"), n.get("field")) in ren:
+                    n["field"] = ren[(n["record"], n["field"])]
+        for g in u.globals:
+            for n in (g.get("nodes") or {}).values():
+                if n.get("k") == "member" and (n.get("record"), n.get("field")) in ren:
+                    n["field"] = ren[(n["record"], n["field"])]
+        for (rec, now), was in ren.items():
+            out.append(("struct " + rec, now, was))
+    return sorted(set(out))
+
+
 def canonicalise(units):
     """returns the list of (file, current name, reference name) aliases applied"""
     ref = load()
     applied = []
+    fields_applied = canonicalise_fields(units, ref)
     byfile = {}
     for u in units:
         for f in u.functions:
             byfile.setdefault(f.file, []).append(f)
     for file, fns in byfile.items():
         r = ref.get(file)
-        if not r:
+        if not r or file.startswith("//"):
             continue
         cur = {f.name for f in fns}
         missing = [n for n in r if n not in cur]
@@ -96,7 +137,7 @@ def canonicalise(units):
             if sc - best_rival >= MARGIN or (sc >= 0.999 and best_rival < 0.999):
                 applied.append((file, name, m, r[m]["static"]))
     if not applied:
-        return []
+        return fields_applied
     for file, now, was, static in applied:
         for u in units:
             touches = (not static) or any(f.file == file for f in u.functions)
@@ -116,4 +157,4 @@ def canonicalise(units):
                 for n in (g.get("nodes") or {}).values():
                     if n.get("k") == "ref" and n.get("dk") == "function" and n.get("name") == now:
                         n["name"] = was
-    return [(file, now, was) for file, now, was, static in applied]
+    return [(file, now, was) for file, now, was, static in applied] + fields_applied
